@@ -25,6 +25,7 @@ RANK_PAIR = "hand_range::rank_pair::RankPair"
 KIND = "hand_range::hand_range_token::HandRangeTokenKind"
 TOKEN = "hand_range::hand_range_token::HandRangeToken"
 OPT_RANK = f"std::option::Option<{RANK}>"
+OPT_RANK_W = f"std::option::Option<({RANK}, &f32)>"       # the run start together with the weight it was opened with
 
 
 def U(rule, msg, fn=None, line=None):
@@ -88,29 +89,53 @@ def find_passes(F, fn, pr):
         ps.fixed_ops = [P.strip(o) for i, o in enumerate(ps.cur_key[2]) if i != ps.x_pos]
         # state variable: Option<Rank> local with a def Some(x) in the loop
         S = None
+        carried = False
+
+        def opens_with(tt, x=x, ps=ps):
+            """Some(x), or Some((x, w)) with w the weight just looked up for the current item's rank pair"""
+            if not (tt[0] == "agg" and tt[1].endswith("Option::Some") and len(tt[2]) == 1):
+                return None
+            pl_ = P.strip(tt[2][0])
+            if pl_ == x:
+                return "rank"
+            if pl_[0] == "agg" and pl_[1] == "tuple" and len(pl_[2]) == 2 and P.strip(pl_[2][0]) == x and is_weight_of_cur(ps, pl_[2][1]):
+                return "rank+weight"
+            return None
+        ps.opens_with = opens_with
         for l, ds in pr.defs.items():
-            if fn.local_ty(l) != OPT_RANK or len(ds) < 2 or fn.local_name(l) is None:
+            if fn.local_ty(l) not in (OPT_RANK, OPT_RANK_W) or len(ds) < 2 or fn.local_name(l) is None:
                 continue
             for (db, si, k, payload) in ds:
                 if k == "rv" and db in lp.body:
                     tt = pr.rvalue(payload)
-                    if tt[0] == "agg" and tt[1].endswith("Option::Some") and P.strip(tt[2][0]) == x:
+                    ow = opens_with(tt)
+                    if ow and (ow == "rank+weight") == (fn.local_ty(l) == OPT_RANK_W):
                         S = l
+                        carried = ow == "rank+weight"
                     if tt[0] == "call" and tt[1] == "std::option::Option::<T>::map" and len(tt[2]) == 2 and \
                             P.strip(tt[2][0], calls=False) == ps.cur_term and _closure_returns_capture(F, tt[2][1]) == x:
                         S = l
             # `S = move tmp` where tmp = Some(x)
         if S is None:
             for l, ds in pr.defs.items():
-                if fn.local_ty(l) == OPT_RANK and len(ds) >= 2 and fn.local_name(l) is not None:
+                if fn.local_ty(l) in (OPT_RANK, OPT_RANK_W) and len(ds) >= 2 and fn.local_name(l) is not None:
                     for a in P.alts(pr.local(l)):
-                        if a[0] == "agg" and a[1].endswith("Option::Some") and P.strip(a[2][0]) == x:
+                        ow = opens_with(a)
+                        if ow and (ow == "rank+weight") == (fn.local_ty(l) == OPT_RANK_W):
                             S = l
+                            carried = ow == "rank+weight"
         if S is None:
             raise U("runpass", f"no run-start state variable (Option<Rank> set to Some(item)) in the pass at line {lp.line}", fn, lp.line)
         ps.S = S
         ps.S_term = pr.local(S)
         ps.start = ("field", ("variant", ps.S_term, "Some"), 0)
+        ps.carried = carried
+        ps.wstart_carried = None
+        if carried:
+            # the state is Some((start rank, weight of the start's rank pair as looked up when the run was opened)); the map
+            # is not written during the pass, so the carried weight IS rank_pairs[RP(start)]
+            ps.wstart_carried = ("field", ps.start, 1)
+            ps.start = ("field", ps.start, 0)
         # the start's weight: unwrap(get(rank_pairs, RP(start)))
         ps.wstart_gets = []
         for (bi, key, ct) in gets:
@@ -124,6 +149,8 @@ def find_passes(F, fn, pr):
 
 def is_weight_of_start(ps, t):
     s = P.strip(t, calls=False)
+    if getattr(ps, "wstart_carried", None) is not None and (s == ps.wstart_carried or P.strip(t) == ps.wstart_carried):
+        return True
     if s[0] == "call" and s[1].rsplit("::", 1)[-1] in ("unwrap", "expect") and s[2]:
         g = P.strip(s[2][0], calls=False)
         return any(g == ct for (_b, ct) in ps.wstart_gets)
@@ -222,7 +249,7 @@ def check_pass(ctx, F, fn, pr, ps, rule, tokens_local_pred):
                     C_some.append((b, lab))
                 else:
                     problems.append(f"weights of neighbouring rank pairs are compared with {op}, not with == / !=")
-    if not ps.wstart_gets:
+    if not ps.wstart_gets and not ps.carried:
         problems.append("the open run's weight is not looked up from the run's start rank pair")
     # pushes / resets / opens inside the loop (not in nested loops)
     pushes, resets, opens, other_S, opens_map = [], [], [], [], []
@@ -250,7 +277,7 @@ def check_pass(ctx, F, fn, pr, ps, rule, tokens_local_pred):
             if S_none and I.guarded_by(fn, db, S_none, start=header):
                 continue        # `start = None` while no run is open: a no-op (the None arm of `cur.map(..)`)
             resets.append(db)
-        elif tt and tt[0] == "agg" and tt[1].endswith("Option::Some") and P.strip(tt[2][0]) == ps.x:
+        elif tt and ps.opens_with(tt) == ("rank+weight" if ps.carried else "rank"):
             opens.append(db)
         elif tt and tt[0] == "call" and tt[1] == "std::option::Option::<T>::map" and len(tt[2]) == 2 and is_cur(tt[2][0]) and \
                 _closure_returns_capture(F, tt[2][1]) == ps.x:
